@@ -50,11 +50,13 @@ def family_F(tier, seed, n=None):
                 ops.append({"op": "call", "call": c_})
             elif r < 0.65:
                 call = rnd.choice([mcall("o1"), wcall([E(B("ne", F("a"), F("k")))], "o1"), wcall([E({"k": "dyn", "o": "", "b": "dd"})], "o1"),
+                                   # the free-standing form vsc.randomize_with(o1): paths are absolute there
+                                   {"kind": "free_with", "roots": ["o1"], "owner": "", "inline": [E(B("ne", F("o1.a"), F("o1.k"))), E(B("le", F("o1.b"), lit(3)))]},
                                    wcall([{"k": "foreach", "l": "l", "v": "j", "it": True, "idx": False,
                                            "body": [E(B("le", {"k": "it", "v": "j", "p": ""}, F("b")))]}], "o1")])
                 op = {"op": "call", "call": call}
                 ph = rnd.choice(["pre", "post", "body"])
-                if ph == "body" and call["kind"] != "with":
+                if ph == "body" and call["kind"] not in ("with", "free_with"):
                     ph = "post"
                 op["fault"] = {"ph": "body", "pos": rnd.randint(0, len(call["inline"]))} if ph == "body" else {"ph": ph, "o": "o1"}
                 ops.append(op)
